@@ -115,6 +115,20 @@ func c17Variants(valid []byte, quick bool) (out [][]c17File, labels []string) {
 		add("words="+trunc(w, 20), one([]byte(comment+ver+"#5\n"+w)))
 		add("words+="+trunc(w, 20), one([]byte(comment+ver+"#5\n"+wj+"\n"+w)))
 	}
+	// a real word line with damage after the number: must make the file unusable, never be read as its numeric prefix
+	if len(words) > 0 {
+		for _, dmg := range []string{"zz", ",", " 0x0", " # x", "\x00", "g", "_", "x", ".5", "e3", "\t7"} {
+			for wi := range words {
+				ws := append([]string(nil), words...)
+				ws[wi] = ws[wi] + dmg
+				add(fmt.Sprintf("word[%d]+=%q", wi, dmg), one([]byte(comment+ver+"#5\n"+strings.Join(ws, "\n"))))
+			}
+		}
+		add("words-joined-on-one-line", one([]byte(comment+ver+"#5\n"+strings.Join(words, " "))))
+		add("seed-with-garbage", one([]byte(comment+ver+"#5zz\n"+wj)))
+		add("version-extended", one([]byte(comment+ver+"0#5\n"+wj)), one([]byte(comment+ver+"-rc1#5\n"+wj)), one([]byte(comment+ver+".1#5\n"+wj)))
+		add("version-prefix", one([]byte(comment+ver[:len(ver)-1]+"#5\n"+wj)))
+	}
 	add("duplicate-header", one([]byte(comment+ver+"#5\n"+ver+"#5\n"+wj)))
 	add("no-comment", one([]byte(ver+"#5\n"+wj)))
 	add("only-comment", one([]byte(comment)))
